@@ -439,6 +439,7 @@ def check_state(s: State, viol, op):
                 subsets.append(list(perm))
         subsets += [list(names), list(reversed(names)), list(names[1:]) + [names[0]], list(names[2:]) + [names[0]]]
     subsets.append([names[0], "unknown-name"])
+    subsets.append([])  # nothing requested: no rows
     for sub in subsets:
         rows_i = list(range(len(names))) if sub is None else [i for i, n in enumerate(names) if n in sub]
         # all time-index subsets for the full table and for single constraints; two of them for larger ordered subsets
